@@ -25,7 +25,7 @@ def run_contracts(src_path, per_condition_timeout=40, hard_timeout=None, only=No
         if m and (only is None or m.group(1) in only):
             funcs[m.group(1)] = i + 2  # a line inside the def (1-based)
     env = dict(os.environ)
-    env["PYTHONPATH"] = "/repo"
+    env["PYTHONPATH"] = os.environ.get("VERIF_REPO", "/repo")
     env["PYTHONDONTWRITEBYTECODE"] = "1"
     hard = hard_timeout or (per_condition_timeout * 3 + 30)
 
